@@ -23,6 +23,11 @@ HEAD = "#![allow(dead_code, unused, non_camel_case_types, non_snake_case, clippy
 
 
 def derive_head(traits, entry):
+    if entry == "path2":
+        # one path-spelled list per trait, stacked: each is an attribute-macro invocation of its own (expanded one after the other)
+        ts = [t for t in traits if not t.startswith("bound(")]
+        shared = [t for t in traits if t.startswith("bound(")]
+        return " ".join("#[::derive_ex::derive_ex(%s)]" % ", ".join([t] + shared) for t in ts)
     if entry == "attr":
         return "#[::derive_ex::derive_ex(%s)]" % ", ".join(traits)
     return "#[derive(::derive_ex::Ex)] #[derive_ex(%s)]" % ", ".join(traits)
